@@ -10,7 +10,11 @@ RULE = ("documents: generated Clausewitz text (nested objects/arrays, duplicate 
         "alphabet; every input the real parser accepts is used. For each tape: the well-formedness checker of the model, "
         "then EVERY container/header token and the top level, with both encodings: fields_len, size hints, fields, "
         "remainder, field groups, read_object/read_array/read_scalar/read_str, values, len, tokens_len. "
-        "non-trivial = the node has at least one field or value")
+        "non-trivial = the node has at least one field or value. "
+        "Wave 4 (props/C17_iter.py): wide objects (12..32 fields over 2..6 keys) and deep documents (nesting 5..8); streams iter / leaf: "
+        "FieldsIter, FieldGroupsIter and ValuesIter observed before the first and after EVERY next() (size hints, remainder()), fusedness, "
+        "and token / tokens_len / read_scalar / read_str / read_string / read_object / read_array / Reader enum / ValueReader::decode "
+        "on every value a node yields, whatever its token kind; oracles from the tape string alone")
 TRUSTED = [  # note: TapeWf.tape_wf of every parsed tape is now a theorem (Props/C17_parser.v)
 "HashMap<&[u8],Vec<_>> of FieldGroupsIter is modelled as an association list keyed by raw bytes (std HashMap trusted)",
            "Encoding::decode is a parameter of the model; the executable instances (Json.decode_w1252 / decode_utf8, incl. "
@@ -26,7 +30,8 @@ SCALARS = [b"1", b"2", b"10", b"-5", b"yes", b"no", b"1.5", b"-0.0", b"0.25", b"
            b"1.00125", b"20405029553322.015", b"0.00000000000000000000001", b"0.0000000000000000000001", b"-9223372036854775808",
            b"Yes", b"YES", b"No", b"NO", b"y", b"n", b"true", b"false", b"yes1", b"h\xe9llo", b"\xc3\xa9t\xc3\xa9", b"\xff\xfe", b"\xe2\x82", b"@var", b"@[1+2]", b"$add$", b"a.b.c", b"007", b"1e5", b"-1.50000"]
 QUOTED = [b'""', b'"x"', b'"no"', b'"No"', b'"-5"', b'"18446744073709551615"', b'"hello world"', b'"yes"', b'"01"', b'"a\\"b"', b'"tr\xe9s "', b'"back\\\\slash"', b'"1.5"', b'"line\nbreak"',
-          b'"tab\t"', b'"\xc3\xa9"', b'"\xed\xa0\x80"', b'"ctl\x01\x1f"', b'"{}=#"', b'"remainder"', b'"type"']
+          b'"tab\t"', b'"\xc3\xa9"', b'"\xed\xa0\x80"', b'"ctl\x01\x1f"', b'"{}=#"', b'"remainder"', b'"type"',
+          b'" lead"', b'"\ttab lead "', b'" "']   # a_dom (wave 4): leading / only whitespace inside quotes
 HEADERS = [b"rgb", b"hsv", b"hsv360", b"LIST", b"list"]
 ALPHABET = b'{}=<>!?"\\#[]@ \n\t;a1b2.-+yesno'
 
@@ -385,6 +390,13 @@ def run(ctx):
     for k, c in enumerate(wf):
         if mod[base + k] != "0" and impl[base + k] == "0":
             ctx.fail("tape-not-wf", "a tape produced by the parser violates TapeWf.tape_wf (clause %s)" % mod[base + k], [c], [impl[base + k]], "0")
+    # >>> a_dom (wave 4): wide objects (many duplicate keys) and deep documents join every stream below
+    from props import C17_iter
+    extra = parse_docs(ctx, C17_iter.extra_docs(ctx, ctx.scale(120, 1200), ctx.scale(120, 1200)), stream="parse_extra")
+    ctx.count("extra documents (wide / deep)", len(extra))
+    main_parsed = parsed
+    parsed = parsed + extra
+    # <<<
     cases, meta = dom_cases(parsed)
     for (toks, idx) in meta:
         ctx.count("node:" + ("top" if idx == "top" else toks[int(idx)][0]))
@@ -400,6 +412,9 @@ def run(ctx):
     for k, c in enumerate(sample):
         if dimpl[db + k] in ("PANIC", "ABORT", "HANG"):
             ctx.fail("dom-crash", "DOM API crashes in a debug build", [c], [dimpl[db + k]], "no panic")
+    # >>> a_dom (wave 4): iterators at every iteration point, value readers of every yielded value
+    C17_iter.run_iter(ctx, main_parsed, extra)
+    # <<<
 
 
 def search(ctx):
@@ -415,6 +430,10 @@ def search(ctx):
 
 CLAIM = {
     "text": "Coq theorems over an index-faithful Gallina model of text/dom.rs (every tokens[i], unwrap, usize subtraction and debug_assert is an explicit Panic site; loops on fuel): for every token list satisfying TapeWf.tape_wf (end pointers, Dyck nesting, header-then-container, object grammar `(key [op] value)* [M item*]`) and every object/array node, fields_len = |fields| = size hint, len = |values| = size hint, field_groups is the partition of fields by raw key in first-appearance order, remainder is exactly the tail after the MixedContainer marker, and no model function panics or runs out of fuel. tape_wf's boolean checker is run on every tape the real parser produces; the model is tied to the code by differential execution of the whole reader API on every container/header node of every accepted document with both encodings, and the same facts are checked on the implementation's outputs against a grammar-level Python reference",
+    "wave4": "Props/C17_iter.v: the same agreements at every iteration point: FieldsIter::size_hint after k calls = fields left, ValuesIter::size_hint exact on both sides after k calls, FieldGroupsIter as the stateful loop over the inner cursor and the shrinking key map yields groups_spec with size hint = groups left after every call and ends with the cursor where fields() stops; remainder() defined at every cursor; read_array of a mixed object = remainder of its own fields(); a header read as an array = [header, container]; value reader answers per token kind",
     "note": "Trusted: Coq kernel, extraction (ExtrOcamlBasic only), harness; HashMap modelled as association list; Encoding::decode is a parameter of the model (executable stand-ins exercised only). That the parser only produces tape_wf tapes is proved by the tape family (C06); here it is an oracle.",
     "technique": "machine-checked proof in Coq over an executable model + model/implementation correspondence by extraction",
 }
+
+# a_dom (wave 4): the additional claim is part of the manifest text
+CLAIM["text"] = CLAIM["text"] + ". Wave 4: " + CLAIM.pop("wave4")
